@@ -45,6 +45,9 @@ type Unit struct {
 	SweepFuncs []string `json:"sweep_funcs,omitempty"`
 	// Scope "tagged" for this unit only (same meaning as the property-level scope)
 	Scope string `json:"scope,omitempty"`
+	// Lockset: run the static lock-discipline analysis (type contracts protected_by / immutable / ...) over every
+	// function of the unit's packages
+	Lockset bool `json:"lockset,omitempty"`
 }
 
 type PropConfig struct {
@@ -169,6 +172,24 @@ func runUnit(u Unit, cfg *PropConfig, tier string, workdir string, res *checkRes
 		if err := e.RunRoot(f); err != nil {
 			res.engineErrors = append(res.engineErrors, err.Error())
 		}
+	}
+	if u.Lockset {
+		pp := map[string]bool{}
+		for _, p := range e.pkgs {
+			pp[p.PkgPath] = true
+		}
+		func() {
+			defer func() {
+				if r := recover(); r != nil {
+					if a, ok := r.(execAbort); ok {
+						res.engineErrors = append(res.engineErrors, "lockset: "+a.msg)
+						return
+					}
+					panic(r)
+				}
+			}()
+			e.RunLockset(pp, cfg.ID)
+		}()
 	}
 	res.engineErrors = append(res.engineErrors, e.errors...)
 	for k := range e.funcsTouched {
@@ -328,6 +349,9 @@ func Check(id, tier string) int {
 	var knownHit []string
 	knownRefuted := 0
 	replayDir := filepath.Join(verifDir, "replays", id)
+	if d := os.Getenv("GOVC_REPLAY_DIR"); d != "" {
+		replayDir = filepath.Join(d, id)
+	}
 	var samples []interface{}
 	for _, g := range res.groups {
 		res.obligations++
